@@ -7,7 +7,7 @@ use crate::internal::{
     schema::{transmute_field, PrettyField},
 };
 
-use super::utils::{check_dim_names, check_permutation, write_list, DebugRepr};
+use super::utils::{check_dim_names, check_permutation, write_list, JsonString};
 
 /// Helper to build variable shape tensor fields (`arrow.variable_shape_tensor`)
 ///
@@ -99,7 +99,7 @@ impl VariableShapeTensorField {
             }
             first_field = false;
             write!(&mut ext_metadata, "\"dim_names\":")?;
-            write_list(&mut ext_metadata, dim_names.iter().map(DebugRepr))?;
+            write_list(&mut ext_metadata, dim_names.iter().map(JsonString))?;
         }
 
         if let Some(uniform_shape) = self.uniform_shape.as_ref() {
